@@ -43,7 +43,8 @@ type Obs struct {
 	Rows     [][]Val  `json:"rows"`      // row storing record i (by marker), canonical db values; nil if none
 	RowCount int64    `json:"row_count"` // rows carrying one of the case's markers
 	Find     [][]Val  `json:"find"`
-	XFind    [][]Val  `json:"xfind"` // the unmapped leaves as read back by Find
+	XBefore  [][]Val  `json:"xbefore"` // the unmapped leaves as the records held them when Create was called
+	XFind    [][]Val  `json:"xfind"`   // the unmapped leaves as read back by Find
 	First    [][]Val  `json:"first"`
 	Take     [][]Val  `json:"take"`
 	ByKey    [][]Val  `json:"bykey"` // First/Take(&T{<own primary key>}) without any Where
@@ -132,6 +133,7 @@ func run(in Input) (o Obs) {
 		marks[i] = r[mi].S
 	}
 	o.After = make([][]Val, n)
+	o.XBefore = empty(n)
 
 	// ---- Create ----
 	func() {
@@ -150,6 +152,7 @@ func run(in Input) (o Obs) {
 				recs[i] = reflect.New(d.t)
 				d.buildRec(recs[i], r)
 				d.buildExtra(recs[i], xrec(in, i))
+				o.XBefore[i] = d.xbefore(recs[i], in, i)
 				if err := db.Create(recs[i].Interface()).Error; err != nil && o.Err == "" {
 					o.Err = err.Error()
 				}
@@ -165,6 +168,7 @@ func run(in Input) (o Obs) {
 			for i, r := range in.Recs {
 				d.buildRec(sl.Elem().Index(i), r)
 				d.buildExtra(sl.Elem().Index(i), xrec(in, i))
+				o.XBefore[i] = d.xbefore(sl.Elem().Index(i), in, i)
 			}
 			if in.Op == "slice" {
 				err = db.Create(sl.Interface()).Error
@@ -185,6 +189,7 @@ func run(in Input) (o Obs) {
 				rec := reflect.New(d.t)
 				d.buildRec(rec, r)
 				d.buildExtra(rec, xrec(in, i))
+				o.XBefore[i] = d.xbefore(rec, in, i)
 				sl.Elem().Index(i).Set(rec)
 			}
 			if err := db.Create(sl.Interface()).Error; err != nil {
@@ -490,6 +495,14 @@ func untyped(d *Desc, row []Val) []Val {
 		}
 	}
 	return row
+}
+
+// xbefore: the unmapped leaves as the record holds them (a leaf under a nil embedded pointer is absent)
+func (d *Desc) xbefore(rec reflect.Value, in Input, i int) []Val {
+	if len(xrec(in, i)) == 0 {
+		return []Val{}
+	}
+	return d.canonExtra(rec)
 }
 
 func xrec(in Input, i int) []Val {
